@@ -36,6 +36,12 @@ type Frame struct {
 	parent  *Frame
 }
 
+type pinnedGlobal struct {
+	v    Val
+	t    types.Type
+	lits []string
+}
+
 type exitRec struct {
 	st      *State
 	results []Val
@@ -58,6 +64,7 @@ type Exec struct {
 	curFrame      *Frame
 	noSafety      bool
 	fpUF          bool
+	pinnedGlobals []pinnedGlobal
 	exitFallback  *State // merged exit state: source of locals not yet declared at an early return
 	specBits      bool // contract equality on floats is identity of the value (NaN equals NaN)
 	epochInfo     map[int]epochInfo
